@@ -1,0 +1,44 @@
+//go:build verif
+// +build verif
+
+// Package c17 re-exports what the C17 harness needs from internal/pb, internal/yaml,
+// internal/plumbing and internal/plumbing/identity (type aliases and function variables only).
+package c17
+
+import (
+	"gopkg.in/src-d/hercules.v10/internal/pb"
+	items "gopkg.in/src-d/hercules.v10/internal/plumbing"
+	"gopkg.in/src-d/hercules.v10/internal/plumbing/identity"
+	"gopkg.in/src-d/hercules.v10/internal/yaml"
+)
+
+// Protobuf message types of the three results.
+type (
+	BurndownAnalysisResults   = pb.BurndownAnalysisResults
+	BurndownSparseMatrix      = pb.BurndownSparseMatrix
+	BurndownSparseMatrixRow   = pb.BurndownSparseMatrixRow
+	FilesOwnership            = pb.FilesOwnership
+	CompressedSparseRowMatrix = pb.CompressedSparseRowMatrix
+	CouplesAnalysisResults    = pb.CouplesAnalysisResults
+	Couples                   = pb.Couples
+	TouchedFiles              = pb.TouchedFiles
+	DevsAnalysisResults       = pb.DevsAnalysisResults
+	TickDevs                  = pb.TickDevs
+	DevTick                   = pb.DevTick
+	PbLineStats               = pb.LineStats
+)
+
+// LineStats is plumbing.LineStats (embedded in leaves.DevTick).
+type LineStats = items.LineStats
+
+// AuthorMissing is identity.AuthorMissing.
+const AuthorMissing = identity.AuthorMissing
+
+// Conversion functions of internal/pb/utils.go and the text matrix printer.
+var (
+	ToBurndownSparseMatrix           = pb.ToBurndownSparseMatrix
+	DenseToCompressedSparseRowMatrix = pb.DenseToCompressedSparseRowMatrix
+	MapToCompressedSparseRowMatrix   = pb.MapToCompressedSparseRowMatrix
+	PrintMatrix                      = yaml.PrintMatrix
+	SafeString                       = yaml.SafeString
+)
